@@ -1,4 +1,4 @@
-(* Proofs for C20 over Store/C20AutoInc.v: invariants over ALL guarded histories. *)
+(* Proofs for C20 over Store/C20AutoInc.v: invariants over ALL guarded histories (single table, then several sessions). *)
 From Coq Require Import List ZArith Bool Lia Sorting.Sorted.
 Import ListNotations.
 From GMS Require Import Store.C20AutoInc.
@@ -8,6 +8,7 @@ Definition below (c : Z) (l : list Z) : Prop := Forall (fun x => x < c) l.
 
 Record Inv (s : st) : Prop := {
   I_pos : 1 <= ctr s;
+  I_sc : ctr s <= sctr s;
   I_ids : below (ctr s) (ids s);
   I_seen : below (ctr s) (seen s);
   I_gens : below (ctr s) (gens s);
@@ -31,83 +32,173 @@ Qed.
 Lemma bump_ge : forall tmax c, c <= bump tmax c.
 Proof. intros. unfold bump. destruct (c <? tmax); lia. Qed.
 
-Lemma eval_id_facts : forall c sp id c', eval_id c sp = (id, c') ->
-  c <= c' /\ (0 <= c -> id <= c') /\ (sp = None -> id = c /\ c' = c).
+Lemma ins_bump_ge : forall tmax id c, c <= ins_bump tmax id c.
+Proof. intros. unfold ins_bump. destruct (c <=? id) eqn:E; [apply Z.leb_le in E; pose proof (bump_ge tmax id)|]; lia. Qed.
+
+Lemma ins_bump_gt : forall tmax id c, ins_bump tmax id c < tmax -> id < ins_bump tmax id c.
 Proof.
-  intros c sp id c' Ee. unfold eval_id in Ee. destruct sp as [k|].
-  - destruct (k <? 0) eqn:Ek; injection Ee as <- <-; [apply Z.ltb_lt in Ek|apply Z.ltb_ge in Ek]; repeat split; try lia; discriminate.
-  - injection Ee as <- <-. repeat split; lia.
+  intros tmax id c. unfold ins_bump, bump. destruct (c <=? id) eqn:E; [apply Z.leb_le in E|apply Z.leb_gt in E]; [|lia].
+  destruct (id <? tmax) eqn:E2; [apply Z.ltb_lt in E2|apply Z.ltb_ge in E2]; lia.
 Qed.
 
-Lemma row_step_mono : forall tmax ign s spu s', row_step tmax ign s spu = Some s' -> ctr s <= ctr s'.
+(* ---------- AutoIncrement.Eval ---------- *)
+Lemma eval_id_fields : forall s sp id s', eval_id s sp = (id, s') ->
+  rows s' = rows s /\ lid s' = lid s /\ cnt s' = cnt s /\ first s' = first s /\ seen s' = seen s /\ gens s' = gens s /\
+  linked s' = linked s /\ ctr s <= ctr s' /\ sctr s <= sctr s' /\ (sp = None -> id = sctr s /\ s' = s).
 Proof.
-  intros tmax ign s [sp ud] s' H. unfold row_step in H. destruct (eval_id (ctr s) sp) as [id c'] eqn:Ee.
-  destruct (eval_id_facts _ _ _ _ Ee) as [Hc1 _].
-  destruct (ud || existsb (Z.eqb id) (ids s)).
-  - destruct ign; [|discriminate]. injection H as <-. cbn. lia.
-  - injection H as <-. cbn. destruct (id =? c'); [pose proof (bump_ge tmax c')|]; lia.
+  intros s sp id s' E. unfold eval_id in E. destruct sp as [k|].
+  - destruct (k <? 0); injection E as <- <-; cbn; repeat split; try lia; try discriminate. destruct (linked s); lia.
+  - injection E as <- <-. repeat split; lia.
 Qed.
 
-Lemma rows_run_mono : forall tmax ign specs s s' b, rows_run tmax ign s specs = (s', b) -> ctr s <= ctr s'.
+Lemma eval_id_inv : forall s sp id s', Inv s -> eval_id s sp = (id, s') -> Inv s' /\ id <= sctr s'.
 Proof.
-  intros tmax ign. induction specs as [|sp r IH]; cbn; intros s s' b H.
+  intros s sp id s' [Hp Hsc Hi Hs Hg Hso] E. unfold eval_id in E. destruct sp as [k|].
+  - destruct (k <? 0) eqn:Ek; injection E as <- <-.
+    + apply Z.ltb_lt in Ek. split; [constructor; assumption|lia].
+    + split; [|cbn; lia].
+      assert (Hc : ctr s <= (if linked s then Z.max (ctr s) k else ctr s)) by (destruct (linked s); lia).
+      constructor; cbn; unfold ids; cbn; try (eapply below_mono; [exact Hc|assumption]); try assumption; destruct (linked s); lia.
+  - injection E as <- <-. split; [constructor; assumption|lia].
+Qed.
+
+(* ---------- one row ---------- *)
+Lemma below_filter : forall c (f : Z * Z -> bool) l, below c (map fst l) -> below c (map fst (filter f l)).
+Proof.
+  intros c f l H. apply Forall_forall. intros x Hx. apply in_map_iff in Hx. destruct Hx as [r [<- Hr]].
+  apply filter_In in Hr. apply (proj1 (Forall_forall _ _) H). apply in_map. exact (proj1 Hr).
+Qed.
+
+Lemma do_insert_inv : forall tmax m s gen id u l, Inv s -> below (ctr s) (map fst l) -> (gen = true -> ctr s <= id) ->
+  ctr (do_insert tmax m s gen id u l) < tmax -> Inv (do_insert tmax m s gen id u l).
+Proof.
+  intros tmax m s gen id u l [Hp Hsc Hi Hs Hg Hso] Hl Hgen Hlt. cbn in Hlt.
+  pose proof (ins_bump_ge tmax id (ctr s)) as Hn1. pose proof (ins_bump_gt tmax id (ctr s) Hlt) as Hn2.
+  constructor; cbn; unfold ids; cbn.
+  - lia.
+  - lia.
+  - rewrite map_app. cbn. apply below_snoc; [eapply below_mono; [exact Hn1|exact Hl]|exact Hn2].
+  - apply below_snoc; [eapply below_mono; [exact Hn1|exact Hs]|exact Hn2].
+  - destruct gen; [apply below_snoc; [|exact Hn2]|]; (eapply below_mono; [exact Hn1|exact Hg]).
+  - destruct gen; [|exact Hso]. apply sorted_snoc; [exact Hso|]. eapply below_mono; [|exact Hg]. apply Hgen. reflexivity.
+Qed.
+
+Lemma do_insert_ctr : forall tmax m s gen id u l, ctr (do_insert tmax m s gen id u l) = ins_bump tmax id (ctr s).
+Proof. reflexivity. Qed.
+
+Lemma min_u_in : forall u l best r, min_u u l best = Some r -> best = Some r \/ In r l.
+Proof.
+  intros u. induction l as [|y l IH]; cbn; intros best r H; [left; exact H|].
+  destruct (IH _ _ H) as [H1|H1]; [|right; right; exact H1].
+  destruct (snd y =? u); [|left; exact H1].
+  destruct best as [b|]; [destruct (fst y <? fst b)|]; first [left; exact H1|injection H1 as <-; right; left; reflexivity].
+Qed.
+
+Lemma existing_in : forall id u l dl ex, existing id u l dl = Some ex -> In ex l.
+Proof.
+  intros id u l dl ex H. unfold existing in H. destruct (find (fun r => fst r =? id) l) as [r|] eqn:E.
+  - injection H as <-. exact (proj1 (find_some _ _ E)).
+  - destruct (existsb (Z.eqb u) dl); [discriminate|]. destruct (min_u_in _ _ _ _ H) as [H1|H1]; [discriminate|exact H1].
+Qed.
+
+Definition mode_ok (m : imode) : Prop := match m with MOdku (OAdd d) => d <= 0 | _ => True end.
+
+Lemma set_id_below : forall c k k' l, below c (map fst l) -> k' < c -> below c (map fst (set_id k k' l)).
+Proof.
+  intros c k k' l H Hk. unfold set_id. rewrite map_map. apply Forall_forall. intros x Hx. apply in_map_iff in Hx.
+  destruct Hx as [r [<- Hr]]. destruct (fst r =? k); cbn; [exact Hk|].
+  apply (proj1 (Forall_forall _ _) H). apply in_map. exact Hr.
+Qed.
+
+Lemma row_step_mono : forall tmax m s spu s', row_step tmax m s spu = Some s' -> ctr s <= ctr s'.
+Proof.
+  intros tmax m s [sp u] s' H. unfold row_step in H. destruct (eval_id s sp) as [id s1] eqn:Ee.
+  destruct (eval_id_fields _ _ _ _ Ee) as [_ [_ [_ [_ [_ [_ [_ [Hc _]]]]]]]].
+  assert (Hd : forall g l, ctr s <= ctr (do_insert tmax m s1 g id u l)).
+  { intros g0 l. rewrite do_insert_ctr. pose proof (ins_bump_ge tmax id (ctr s1)). lia. }
+  destruct (existing id u (rows s1) (delu s1)) as [ex|].
+  - destruct m as [| | |[| |d]].
+    + discriminate.
+    + injection H as <-. exact Hc.
+    + injection H as <-. apply Hd.
+    + injection H as <-. exact Hc.
+    + injection H as <-. exact Hc.
+    + cbn [rows with_delu] in H. destruct (fst ex + d =? fst ex); [injection H as <-; exact Hc|].
+      destruct (has_id (fst ex + d) (rows s1)); [discriminate|]. injection H as <-. exact Hc.
+  - injection H as <-. apply Hd.
+Qed.
+
+Lemma rows_run_mono : forall tmax m specs s s' b, rows_run tmax m s specs = (s', b) -> ctr s <= ctr s'.
+Proof.
+  intros tmax m. induction specs as [|sp r IH]; cbn; intros s s' b H.
   - injection H as <- _. lia.
-  - destruct (row_step tmax ign s sp) as [s1|] eqn:E.
+  - destruct (row_step tmax m s sp) as [s1|] eqn:E.
     + pose proof (row_step_mono _ _ _ _ _ E). pose proof (IH _ _ _ H). lia.
     + injection H as <- _. lia.
 Qed.
 
 (* one row keeps the invariant as long as the counter stays below the type maximum *)
-Lemma row_step_inv : forall tmax ign s spu s', Inv s -> row_step tmax ign s spu = Some s' -> ctr s' < tmax -> Inv s'.
+Lemma row_step_inv : forall tmax m s spu s', mode_ok m -> Inv s -> row_step tmax m s spu = Some s' -> ctr s' < tmax -> Inv s'.
 Proof.
-  intros tmax ign s [sp ud] s' [Hp Hi Hs Hg Hso] H Hlt. unfold row_step in H.
-  destruct (eval_id (ctr s) sp) as [id c'] eqn:Ee.
-  destruct (eval_id_facts _ _ _ _ Ee) as [Hc1 [Hc2' Hc3]]. assert (Hc2 : id <= c') by (apply Hc2'; lia).
-  destruct (ud || existsb (Z.eqb id) (ids s)).
-  - destruct ign; [|discriminate]. injection H as <-. cbn. constructor; cbn; assumption.
-  - injection H as <-. cbn in Hlt |- *.
-    assert (Hn : ctr s <= (if id =? c' then bump tmax c' else c') /\ id < (if id =? c' then bump tmax c' else c')).
-    { unfold bump in *. destruct (id =? c') eqn:E; [apply Z.eqb_eq in E|apply Z.eqb_neq in E]; [|lia].
-      destruct (c' <? tmax) eqn:E2; [apply Z.ltb_lt in E2|apply Z.ltb_ge in E2]; lia. }
-    destruct Hn as [Hn1 Hn2].
-    constructor; cbn.
-    + lia.
-    + apply below_snoc; [eapply below_mono; [|exact Hi]; exact Hn1|exact Hn2].
-    + apply below_snoc; [eapply below_mono; [|exact Hs]; exact Hn1|exact Hn2].
-    + destruct sp; [eapply below_mono; [|exact Hg]; exact Hn1|].
-      apply below_snoc; [eapply below_mono; [|exact Hg]; exact Hn1|exact Hn2].
-    + destruct sp; [exact Hso|]. destruct (Hc3 eq_refl) as [-> _]. apply sorted_snoc; assumption.
+  intros tmax m s [sp u] s' Hm HI H Hlt. unfold row_step in H. destruct (eval_id s sp) as [id s1] eqn:Ee.
+  destruct (eval_id_inv _ _ _ _ HI Ee) as [HI1 Hid].
+  destruct (eval_id_fields _ _ _ _ Ee) as [_ [_ [_ [_ [_ [_ [_ [_ [_ Hnone]]]]]]]]].
+  assert (Hgen : (match sp with None => true | Some _ => false end) = true -> ctr s1 <= id).
+  { destruct sp; [discriminate|]. intros _. destruct (Hnone eq_refl) as [-> ->]. exact (I_sc _ HI). }
+  destruct (existing id u (rows s1) (delu s1)) as [ex|] eqn:Eex.
+  - destruct m as [| | |[| |d]].
+    + discriminate.
+    + injection H as <-. exact HI1.
+    + injection H as <-. apply do_insert_inv; [exact HI1| |exact Hgen|exact Hlt].
+      apply below_filter. exact (I_ids _ HI1).
+    + injection H as <-. destruct HI1; constructor; assumption.
+    + injection H as <-. destruct HI1; constructor; assumption.
+    + cbn in Hm. cbn [rows with_delu] in H. destruct (fst ex + d =? fst ex); [injection H as <-; destruct HI1; constructor; assumption|].
+      destruct (has_id (fst ex + d) (rows s1)); [discriminate|]. injection H as <-.
+      assert (Hex : fst ex < ctr s1).
+      { apply (proj1 (Forall_forall _ _) (I_ids _ HI1)). apply in_map. exact (existing_in _ _ _ _ _ Eex). }
+      destruct HI1 as [Hp Hsc Hi Hs Hg Hso]. constructor; cbn; unfold ids; cbn; try assumption.
+      * apply set_id_below; [exact Hi|lia].
+      * apply below_snoc; [exact Hs|lia].
+  - injection H as <-. apply do_insert_inv; [exact HI1|exact (I_ids _ HI1)|exact Hgen|exact Hlt].
 Qed.
 
-Lemma rows_run_inv : forall tmax ign specs s s', Inv s -> rows_run tmax ign s specs = (s', true) -> ctr s' < tmax -> Inv s'.
+Lemma rows_run_inv : forall tmax m specs s s', mode_ok m -> Inv s -> rows_run tmax m s specs = (s', true) -> ctr s' < tmax -> Inv s'.
 Proof.
-  intros tmax ign. induction specs as [|sp r IH]; cbn; intros s s' HI H Hlt.
+  intros tmax m. induction specs as [|sp r IH]; cbn; intros s s' Hm HI H Hlt.
   - injection H as <-. exact HI.
-  - destruct (row_step tmax ign s sp) as [s1|] eqn:E; [|discriminate].
-    eapply IH; [|exact H|exact Hlt]. eapply row_step_inv; [exact HI|exact E|].
+  - destruct (row_step tmax m s sp) as [s1|] eqn:E; [|discriminate].
+    eapply IH; [exact Hm| |exact H|exact Hlt]. eapply row_step_inv; [exact Hm|exact HI|exact E|].
     pose proof (rows_run_mono _ _ _ _ _ _ H). lia.
 Qed.
 
-Lemma filter_below : forall c f l, below c l -> below c (filter f l).
-Proof.
-  intros c f l H. apply Forall_forall. intros x Hx. apply filter_In in Hx.
-  exact (proj1 (Forall_forall _ _) H x (proj1 Hx)).
-Qed.
+Lemma ev_ok_mode : forall s m specs, ev_ok s (EInsert m specs) = true -> mode_ok m.
+Proof. intros s m specs H. destruct m as [| | |[| |d]]; cbn; try exact I. cbn in H. apply Z.leb_le. exact H. Qed.
 
 Lemma step_inv : forall tmax s e, Inv s -> ev_ok s e = true -> ctr (fst (step tmax s e)) < tmax -> Inv (fst (step tmax s e)).
 Proof.
-  intros tmax s e HI Hg. destruct e as [ign specs|k|k|n]; cbn.
-  - destruct (rows_run tmax ign (begin_insert s specs) specs) as [s1 b] eqn:E.
-    assert (HI0 : Inv (begin_insert s specs)) by (destruct HI; constructor; cbn; assumption).
-    destruct b; cbn; intros Hlt; [exact (rows_run_inv _ _ _ _ _ HI0 E Hlt)|]. destruct HI; constructor; cbn; assumption.
-  - intros _. destruct HI; constructor; cbn; try assumption. apply filter_below. assumption.
-  - intros _. destruct HI; constructor; cbn; try assumption. apply filter_below. assumption.
-  - intros _. cbn in Hg. apply Z.leb_le in Hg. destruct HI as [Hp Hi Hs Hgn Hso]. constructor; cbn.
+  intros tmax s e HI Hg. destruct e as [m specs|k|k|n|k k'|n]; cbn [step].
+  - destruct (rows_run tmax m (begin_insert s specs) specs) as [s1 b] eqn:E.
+    assert (HI0 : Inv (begin_insert s specs)) by (destruct HI; constructor; cbn; try assumption; lia).
+    destruct b; cbn; intros Hlt.
+    + pose proof (rows_run_inv _ _ _ _ _ (ev_ok_mode _ _ _ Hg) HI0 E Hlt) as [Hp Hsc Hi Hs Hgn Hso].
+      constructor; cbn; try assumption; lia.
+    + destruct HI; constructor; cbn; assumption.
+  - intros _. destruct HI; constructor; cbn; unfold ids; cbn; try assumption. apply below_filter. assumption.
+  - intros _. destruct HI; constructor; cbn; unfold ids; cbn; try assumption. apply below_filter. assumption.
+  - intros _. cbn in Hg. apply Z.leb_le in Hg. destruct HI as [Hp Hsc Hi Hs Hgn Hso]. constructor; cbn.
+    + lia.
     + lia.
     + eapply below_mono; [exact Hg|exact Hi].
     + eapply below_mono; [exact Hg|exact Hs].
     + eapply below_mono; [exact Hg|exact Hgn].
     + exact Hso.
+  - intros _. cbn in Hg. apply Z.ltb_lt in Hg. destruct (has_id k (rows s) && negb (k' =? k)); [|exact HI].
+    destruct (has_id k' (rows s)); [exact HI|]. cbn. destruct HI as [Hp Hsc Hi Hs Hgn Hso].
+    constructor; cbn; unfold ids; cbn; try assumption.
+    + apply set_id_below; assumption.
+    + apply below_snoc; assumption.
+  - intros _. destruct HI; constructor; cbn; assumption.
 Qed.
 
 Theorem run_inv : forall tmax h s, Inv s -> guarded tmax s h = true -> Inv (run tmax s h).
@@ -117,28 +208,55 @@ Proof.
   apply Z.ltb_lt in H1. apply IH; [apply step_inv; assumption|exact H2].
 Qed.
 
-(* ---------- saturation: the counter pins at the type maximum and never wraps ---------- *)
-Lemma row_step_le : forall tmax ign s spu s', ctr s <= tmax ->
-  (match fst spu with Some k => k <= tmax | None => True end) ->
-  row_step tmax ign s spu = Some s' -> ctr s' <= tmax.
+Lemma init_inv : Inv init.
+Proof. constructor; cbn; try constructor; lia. Qed.
+
+(* a failed statement leaves counter, rows and the ghost lists as they were (DiscardChanges) *)
+Theorem failed_statement_restores : forall tmax s e iid, snd (step tmax s e) = (false, iid) -> tb_of (fst (step tmax s e)) = tb_of s.
 Proof.
-  intros tmax ign s [sp ud] s' Hc Hk H. unfold row_step in H. destruct (eval_id (ctr s) sp) as [id c'] eqn:Ee.
-  assert (Hc' : c' <= tmax).
-  { unfold eval_id in Ee. destruct sp as [k|]; [|injection Ee as _ <-; exact Hc]. cbn in Hk.
-    destruct (k <? 0); injection Ee as _ <-; lia. }
-  destruct (ud || existsb (Z.eqb id) (ids s)).
-  - destruct ign; [|discriminate]. injection H as <-. cbn. exact Hc.
-  - injection H as <-. cbn. unfold bump. destruct (id =? c'); [|exact Hc'].
-    destruct (c' <? tmax) eqn:E; [apply Z.ltb_lt in E|]; lia.
+  intros tmax s e iid. destruct e as [m specs|k|k|n|k k'|n]; cbn [step]; try (cbn; discriminate).
+  - destruct (rows_run tmax m (begin_insert s specs) specs) as [s1 b]. destruct b; cbn; [discriminate|reflexivity].
+  - destruct (has_id k (rows s) && negb (k' =? k)); [|cbn; discriminate].
+    destruct (has_id k' (rows s)); cbn; [reflexivity|discriminate].
 Qed.
 
-Lemma rows_run_le : forall tmax ign specs s s' b, ctr s <= tmax ->
-  forallb (fun sp : option Z * bool => match fst sp with Some k => k <=? tmax | None => true end) specs = true ->
-  rows_run tmax ign s specs = (s', b) -> ctr s' <= tmax.
+(* ---------- saturation: the counter pins at the type maximum and never wraps ---------- *)
+Definition fits (tmax : Z) (s : st) : Prop := ctr s <= tmax /\ sctr s <= tmax.
+
+Lemma bump_le : forall tmax c, c <= tmax -> bump tmax c <= tmax.
+Proof. intros. unfold bump. destruct (c <? tmax) eqn:E; [apply Z.ltb_lt in E|]; lia. Qed.
+
+Lemma row_step_le : forall tmax m s spu s', fits tmax s ->
+  (match fst spu with Some k => k <= tmax | None => True end) ->
+  row_step tmax m s spu = Some s' -> fits tmax s'.
 Proof.
-  intros tmax ign. induction specs as [|sp r IH]; cbn; intros s s' b Hc Hf H.
+  intros tmax m s [sp u] s' [Hc Hs] Hk H. unfold row_step in H. destruct (eval_id s sp) as [id s1] eqn:Ee.
+  assert (H1 : fits tmax s1 /\ id <= tmax).
+  { unfold eval_id in Ee. destruct sp as [k|]; [|injection Ee as <- <-; repeat split; assumption]. cbn in Hk.
+    destruct (k <? 0) eqn:Ek; injection Ee as <- <-; [apply Z.ltb_lt in Ek; repeat split; try assumption; lia|].
+    unfold fits; cbn. destruct (linked s); repeat split; lia. }
+  destruct H1 as [[Hc1 Hs1] Hid].
+  assert (Hd : forall g l, fits tmax (do_insert tmax m s1 g id u l)).
+  { intros g0 l. unfold fits. cbn. unfold ins_bump. destruct (ctr s1 <=? id); [pose proof (bump_le tmax id Hid)|]; lia. }
+  destruct (existing id u (rows s1) (delu s1)) as [ex|].
+  - destruct m as [| | |[| |d]].
+    + discriminate.
+    + injection H as <-. split; assumption.
+    + injection H as <-. apply Hd.
+    + injection H as <-. split; assumption.
+    + injection H as <-. split; assumption.
+    + cbn [rows with_delu] in H. destruct (fst ex + d =? fst ex); [injection H as <-; split; assumption|].
+      destruct (has_id (fst ex + d) (rows s1)); [discriminate|]. injection H as <-. split; assumption.
+  - injection H as <-. apply Hd.
+Qed.
+
+Lemma rows_run_le : forall tmax m specs s s' b, fits tmax s ->
+  forallb (fun sp : option Z * Z => match fst sp with Some k => k <=? tmax | None => true end) specs = true ->
+  rows_run tmax m s specs = (s', b) -> fits tmax s'.
+Proof.
+  intros tmax m. induction specs as [|sp r IH]; cbn; intros s s' b Hc Hf H.
   - injection H as <- _. exact Hc.
-  - apply andb_prop in Hf. destruct Hf as [Hf1 Hf2]. destruct (row_step tmax ign s sp) as [s1|] eqn:E.
+  - apply andb_prop in Hf. destruct Hf as [Hf1 Hf2]. destruct (row_step tmax m s sp) as [s1|] eqn:E.
     + eapply IH; [|exact Hf2|exact H]. eapply row_step_le; [exact Hc| |exact E].
       destruct (fst sp); [apply Z.leb_le; exact Hf1|exact I].
     + injection H as <- _. exact Hc.
@@ -146,10 +264,11 @@ Qed.
 
 Lemma step_le : forall tmax s e, ctr s <= tmax -> ev_fits tmax e = true -> ctr (fst (step tmax s e)) <= tmax.
 Proof.
-  intros tmax s e Hc Hf. destruct e as [ign specs|k|k|n]; cbn; try exact Hc.
-  - destruct (rows_run tmax ign (begin_insert s specs) specs) as [s1 b] eqn:E.
-    destruct b; cbn; [|exact Hc]. eapply rows_run_le; [|exact Hf|exact E]. exact Hc.
+  intros tmax s e Hc Hf. destruct e as [m specs|k|k|n|k k'|n]; cbn [step]; try exact Hc.
+  - destruct (rows_run tmax m (begin_insert s specs) specs) as [s1 b] eqn:E.
+    destruct b; cbn; [|exact Hc]. refine (proj1 (rows_run_le _ _ _ _ _ _ _ Hf E)). split; cbn; exact Hc.
   - cbn in Hf. apply Z.leb_le. exact Hf.
+  - destruct (has_id k (rows s) && negb (k' =? k)); [|exact Hc]. destruct (has_id k' (rows s)); exact Hc.
 Qed.
 
 Theorem run_le : forall tmax h s, ctr s <= tmax -> forallb (ev_fits tmax) h = true -> ctr (run tmax s h) <= tmax.
@@ -158,45 +277,46 @@ Proof.
   cbn in Hf. apply andb_prop in Hf. destruct Hf as [H1 H2]. apply IH; [apply step_le; assumption|exact H2].
 Qed.
 
+Lemma find_id_some : forall id l, In id (map fst l) -> exists r, find (fun r : Z * Z => fst r =? id) l = Some r.
+Proof.
+  intros id. induction l as [|r l IH]; cbn; intros H; [contradiction|].
+  destruct (fst r =? id) eqn:E; [exists r; reflexivity|]. destruct H as [H|H]; [apply Z.eqb_neq in E; contradiction|exact (IH H)].
+Qed.
+
 (* at the maximum with the maximum stored: a generated insert fails (duplicate key) and the counter stays *)
-Theorem pinned_insert_fails : forall tmax s, ctr s = tmax -> In tmax (ids s) ->
-  snd (step tmax s (EInsert false [(None, false)])) = (false, 0) /\ ctr (fst (step tmax s (EInsert false [(None, false)]))) = tmax.
+Theorem pinned_insert_fails : forall tmax s u, ctr s = tmax -> In tmax (ids s) ->
+  snd (step tmax s (EInsert MPlain [(None, u)])) = (false, 0) /\ ctr (fst (step tmax s (EInsert MPlain [(None, u)]))) = tmax.
 Proof.
-  intros tmax s Hc Hin. cbn. unfold row_step. cbn. rewrite Hc.
-  assert (E : existsb (Z.eqb tmax) (ids s) = true).
-  { apply existsb_exists. exists tmax. split; [exact Hin|apply Z.eqb_refl]. }
-  rewrite E. cbn. split; [reflexivity|exact Hc].
+  intros tmax s u Hc Hin. cbn. unfold row_step. cbn. rewrite Hc. unfold existing. cbn.
+  destruct (find_id_some tmax (rows s) Hin) as [r ->]. cbn. split; [reflexivity|exact Hc].
 Qed.
 
-Lemma init_inv : Inv init.
-Proof. constructor; cbn; try constructor; lia. Qed.
-
-(* the next generated id is the counter *)
-Lemma generated_is_counter : forall tmax ign s ud s', row_step tmax ign s (None, ud) = Some s' ->
-  s' = s \/ (gens s' = gens s ++ [ctr s] /\ ids s' = ids s ++ [ctr s] /\ ctr s' = bump tmax (ctr s)).
+(* the next generated id is the counter of the session's table data (= the counter when the statement begins) *)
+Lemma generated_is_counter : forall tmax m s u s', row_step tmax m s (None, u) = Some s' -> existing (sctr s) u (rows s) (delu s) = None ->
+  gens s' = gens s ++ [sctr s] /\ ids s' = ids s ++ [sctr s] /\ ctr s' = ins_bump tmax (sctr s) (ctr s).
 Proof.
-  intros tmax ign s ud s' H. unfold row_step in H. cbn in H.
-  destruct (ud || existsb (Z.eqb (ctr s)) (ids s)).
-  - destruct ign; [|discriminate]. injection H as <-. left. destruct s; reflexivity.
-  - injection H as <-. right. cbn. rewrite Z.eqb_refl. repeat split.
+  intros tmax m s u s' H Hex. unfold row_step in H. cbn in H. rewrite Hex in H. injection H as <-. cbn. unfold ids. cbn.
+  rewrite map_app. repeat split.
 Qed.
 
-(* LAST_INSERT_ID() after a successful plain INSERT is the first generated id *)
-Lemma row_step_plain_fields : forall tmax s sp ud s', row_step tmax false s (sp, ud) = Some s' ->
+(* ---------- LAST_INSERT_ID() after a successful plain INSERT is the first generated id ---------- *)
+Lemma row_step_plain_fields : forall tmax s sp u s', row_step tmax MPlain s (sp, u) = Some s' ->
   exists id, lid s' = (if cnt s =? 0 then id else lid s) /\
              cnt s' = (if cnt s <? 0 then cnt s else cnt s - 1) /\
              gens s' = (match sp with None => gens s ++ [id] | Some _ => gens s end).
 Proof.
-  intros tmax s sp ud s' E. unfold row_step in E. destruct (eval_id (ctr s) sp) as [id c'].
-  destruct (ud || existsb (Z.eqb id) (ids s)); [discriminate|]. injection E as <-. exists id. cbn. repeat split.
+  intros tmax s sp u s' E. unfold row_step in E. destruct (eval_id s sp) as [id s1] eqn:Ee.
+  destruct (eval_id_fields _ _ _ _ Ee) as [_ [Hl [Hc [_ [_ [Hg _]]]]]].
+  destruct (existing id u (rows s1) (delu s1)); [discriminate|]. injection E as <-. exists id. cbn. rewrite Hl, Hc, Hg.
+  destruct sp; repeat split.
 Qed.
 
-Lemma rows_run_neg : forall tmax specs s s', cnt s < 0 -> rows_run tmax false s specs = (s', true) ->
+Lemma rows_run_neg : forall tmax specs s s', cnt s < 0 -> rows_run tmax MPlain s specs = (s', true) ->
   lid s' = lid s /\ exists rest, gens s' = gens s ++ rest.
 Proof.
   intros tmax. induction specs as [|[sp ud] r IH]; cbn [rows_run]; intros s s' Hc H.
   - injection H as <-. split; [reflexivity|exists []; rewrite app_nil_r; reflexivity].
-  - destruct (row_step tmax false s (sp, ud)) as [s1|] eqn:E; [|discriminate].
+  - destruct (row_step tmax MPlain s (sp, ud)) as [s1|] eqn:E; [|discriminate].
     destruct (row_step_plain_fields _ _ _ _ _ E) as [id [Hl [Hn Hg]]].
     assert (X : cnt s <? 0 = true) by (apply Z.ltb_lt; exact Hc). rewrite X in Hn.
     assert (Y : cnt s =? 0 = false) by (apply Z.eqb_neq; lia). rewrite Y in Hl.
@@ -211,10 +331,10 @@ Proof.
 Qed.
 
 Lemma rows_run_lid : forall tmax specs s s', cnt s = first_gen_index specs -> 0 <= cnt s ->
-  rows_run tmax false s specs = (s', true) -> exists g rest, gens s' = gens s ++ g :: rest /\ lid s' = g.
+  rows_run tmax MPlain s specs = (s', true) -> exists g rest, gens s' = gens s ++ g :: rest /\ lid s' = g.
 Proof.
   intros tmax. induction specs as [|[sp ud] r IH]; cbn [rows_run first_gen_index]; intros s s' Hc Hp H; [cbn in Hc; lia|].
-  destruct (row_step tmax false s (sp, ud)) as [s1|] eqn:E; [|discriminate].
+  destruct (row_step tmax MPlain s (sp, ud)) as [s1|] eqn:E; [|discriminate].
   destruct (row_step_plain_fields _ _ _ _ _ E) as [id [Hl [Hn Hg]]].
   assert (X : cnt s <? 0 = false) by (apply Z.ltb_ge; exact Hp). rewrite X in Hn.
   destruct sp as [k|].
@@ -228,38 +348,187 @@ Proof.
 Qed.
 
 Theorem plain_insert_lid : forall tmax s specs s' iid,
-  step tmax s (EInsert false specs) = (s', (true, iid)) -> 0 <= first_gen_index specs ->
+  step tmax s (EInsert MPlain specs) = (s', (true, iid)) -> 0 <= first_gen_index specs ->
   exists g rest, gens s' = gens s ++ g :: rest /\ lid s' = g.
 Proof.
   intros tmax s specs s' iid H Hf. cbn in H.
-  destruct (rows_run tmax false (begin_insert s specs) specs) as [s1 b] eqn:E. destruct b; [|discriminate].
-  injection H as <- _. exact (rows_run_lid tmax specs (begin_insert s specs) s1 (eq_refl : cnt (begin_insert s specs) = first_gen_index specs) Hf E).
+  destruct (rows_run tmax MPlain (begin_insert s specs) specs) as [s1 b] eqn:E. destruct b; [|discriminate].
+  injection H as <- _. cbn.
+  exact (rows_run_lid tmax specs (begin_insert s specs) s1 (eq_refl : cnt (begin_insert s specs) = first_gen_index specs) Hf E).
+Qed.
+
+(* ---------- several sessions ---------- *)
+Definition TInv (t : tb) : Prop := Inv (st_of t 0).
+Definition OInv (o : option tb) : Prop := match o with Some t => TInv t | None => True end.
+Definition WInv (w : world) : Prop := TInv (wdb w) /\ Forall OInv (wtx w).
+
+Lemma inv_st_of : forall t l l', Inv (st_of t l) -> Inv (st_of t l').
+Proof. intros t l l' [Hp Hsc Hi Hs Hg Hso]. constructor; assumption. Qed.
+
+Lemma inv_tb_of : forall s l, Inv s -> Inv (st_of (tb_of s) l).
+Proof. intros s l [Hp Hsc Hi Hs Hg Hso]. constructor; cbn; try assumption. lia. Qed.
+
+Lemma forall_nth : forall (P : option tb -> Prop) l i, P None -> Forall P l -> P (nth i l None).
+Proof.
+  intros P. induction l as [|x l IH]; intros i Hn H; destruct i; cbn; try exact Hn.
+  - inversion H; assumption.
+  - inversion H; subst. apply IH; assumption.
+Qed.
+
+Lemma forall_set_nth : forall {A} (P : A -> Prop) d i v l, P d -> P v -> Forall P l -> Forall P (set_nth d i v l).
+Proof.
+  intros A P d. induction i as [|i IH]; intros v l Hd Hv H; destruct l as [|x l]; cbn.
+  - constructor; [exact Hv|constructor].
+  - inversion H; subst. constructor; assumption.
+  - constructor; [exact Hd|]. apply IH; [exact Hd|exact Hv|constructor].
+  - inversion H; subst. constructor; [assumption|]. apply IH; assumption.
+Qed.
+
+Lemma nth_set_nth_same : forall {A} (d : A) i v l, nth i (set_nth d i v l) d = v.
+Proof. intros A d. induction i as [|i IH]; intros v l; destruct l; cbn; try reflexivity; apply IH. Qed.
+
+Lemma nth_set_nth_other : forall {A} (d : A) i j v l, i <> j -> nth j (set_nth d i v l) d = nth j l d.
+Proof.
+  intros A d. induction i as [|i IH]; intros j v l Hij; destruct l as [|x l]; destruct j as [|j]; cbn; try reflexivity; try congruence.
+  - destruct j; reflexivity.
+  - rewrite IH; [destruct j; reflexivity|congruence].
+  - apply IH. congruence.
+Qed.
+
+Lemma wtable_inv : forall w i, WInv w -> TInv (wtable w i).
+Proof.
+  intros w i [Hd Ht]. unfold wtable. pose proof (forall_nth OInv (wtx w) i I Ht) as H.
+  destruct (nth i (wtx w) None); [exact H|exact Hd].
+Qed.
+
+Lemma wstep_inv : forall tmax w e, WInv w -> wev_ok tmax w e = true -> WInv (fst (wstep tmax w e)).
+Proof.
+  intros tmax w e HW Hg. pose proof HW as [Hd Ht]. destruct e as [i ev|i|i|i]; cbn [wstep].
+  - cbn in Hg. apply andb_prop in Hg. destruct Hg as [G1 G2]. apply Z.ltb_lt in G2.
+    pose proof (step_inv tmax _ ev (inv_st_of _ 0 (nth i (wlid w) 0) (wtable_inv w i HW)) G1 G2) as HI.
+    destruct (step tmax (st_of (wtable w i) (nth i (wlid w) 0)) ev) as [s' res]. cbn in HI.
+    destruct (nth i (wtx w) None); cbn; split; cbn; try assumption.
+    + apply forall_set_nth; [exact I|exact (inv_tb_of _ 0 HI)|exact Ht].
+    + exact (inv_tb_of _ 0 HI).
+  - cbn. split; cbn; [exact (wtable_inv w i HW)|]. apply forall_set_nth; [exact I|exact (wtable_inv w i HW)|exact Ht].
+  - cbn. split; cbn; [exact (wtable_inv w i HW)|]. apply forall_set_nth; [exact I|exact I|exact Ht].
+  - cbn. split; cbn; [exact Hd|]. apply forall_set_nth; [exact I|exact I|exact Ht].
+Qed.
+
+Theorem wrun_inv : forall tmax h w, WInv w -> wguarded tmax w h = true -> WInv (wrun tmax w h).
+Proof.
+  intros tmax. induction h as [|e h IH]; intros w HW Hg; cbn; [exact HW|].
+  cbn in Hg. apply andb_prop in Hg. destruct Hg as [H1 H2]. apply IH; [apply wstep_inv; assumption|exact H2].
+Qed.
+
+Lemma winit_inv : WInv winit.
+Proof. split; [exact (inv_tb_of _ 0 init_inv)|constructor]. Qed.
+
+Definition wevent_session (e : wevent) : nat :=
+  match e with WStmt i _ => i | WBegin i => i | WCommit i => i | WRollback i => i end.
+
+(* LAST_INSERT_ID() is per session: what session i does leaves the value of every other session alone *)
+Theorem lid_per_session : forall tmax w e j, wevent_session e <> j ->
+  nth j (wlid (fst (wstep tmax w e))) 0 = nth j (wlid w) 0.
+Proof.
+  intros tmax w e j Hj. destruct e as [i ev|i|i|i]; cbn [wstep wevent_session] in *; try reflexivity.
+  destruct (step tmax (st_of (wtable w i) (nth i (wlid w) 0)) ev) as [s' res].
+  destruct (nth i (wtx w) None); cbn; apply nth_set_nth_other; exact Hj.
+Qed.
+
+(* inside BEGIN ... ROLLBACK nothing reaches the stored table: the counter is rolled back with the rows *)
+Theorem rollback_restores : forall tmax evs w i t, nth i (wtx w) None = Some t ->
+  wdb (wrun tmax w (map (WStmt i) evs ++ [WRollback i])) = wdb w /\
+  nth i (wtx (wrun tmax w (map (WStmt i) evs ++ [WRollback i]))) None = None.
+Proof.
+  intros tmax. induction evs as [|ev evs IH]; intros w i t Ht; cbn.
+  - split; [reflexivity|apply nth_set_nth_same].
+  - unfold wrun in IH. cbn [wstep].
+    destruct (step tmax (st_of (wtable w i) (nth i (wlid w) 0)) ev) as [s' res]. rewrite Ht. cbn [fst].
+    match goal with |- context [fold_left _ _ ?w'] => specialize (IH w' i (tb_of s')) end.
+    cbn in IH. rewrite nth_set_nth_same in IH. exact (IH eq_refl).
 Qed.
 
 (* ---------- witnesses ---------- *)
 Definition big : Z := 9223372036854775807.
-Definition g : option Z * bool := (None, false).
-Definition x (k : Z) : option Z * bool := (Some k, false).
+Definition g (u : Z) : option Z * Z := (None, u).
+Definition x (k u : Z) : option Z * Z := (Some k, u).
 
 Lemma alter_below_max_stuck :
-  guarded big init [EInsert false [g; g; g]; EAlter 2; EInsert false [g]] = false /\
-  ctr (run big init [EInsert false [g; g; g]; EAlter 2]) = 2 /\ In 3 (ids (run big init [EInsert false [g; g; g]; EAlter 2])) /\
-  snd (step big (run big init [EInsert false [g; g; g]; EAlter 2]) (EInsert false [g])) = (false, 0).
+  guarded big init [EInsert MPlain [g 1; g 2; g 3]; EAlter 2; EInsert MPlain [g 4]] = false /\
+  ctr (run big init [EInsert MPlain [g 1; g 2; g 3]; EAlter 2]) = 2 /\ In 3 (ids (run big init [EInsert MPlain [g 1; g 2; g 3]; EAlter 2])) /\
+  snd (step big (run big init [EInsert MPlain [g 1; g 2; g 3]; EAlter 2]) (EInsert MPlain [g 4])) = (false, 0).
 Proof. repeat split; vm_compute; auto. Qed.
 
 Lemma ignore_lid_shift :
-  let s := run big init [EInsert false [g]] in
-  let r := step big s (EInsert true [x 1; g; x 20]) in
+  let s := run big init [EInsert MPlain [g 1]] in
+  let r := step big s (EInsert MIgnore [x 1 2; g 3; x 20 4]) in
   snd r = (true, 2) /\ gens (fst r) = [1; 2] /\ lid (fst r) = 20.
 Proof. repeat split; vm_compute; reflexivity. Qed.
 
 Lemma insert_id_explicit_first :
-  let r := step big init (EInsert false [x 5; g]) in
+  let r := step big init (EInsert MPlain [x 5 1; g 2]) in
   snd r = (true, 5) /\ gens (fst r) = [6] /\ lid (fst r) = 6.
 Proof. repeat split; vm_compute; reflexivity. Qed.
 
 (* TINYINT: the maximum 127 is generated, deleted and generated AGAIN (the counter is pinned, it does not wrap) *)
 Lemma max_id_reused_after_delete :
-  let s := run 127 init [EAlter 127; EInsert false [g]; EDelEq 127; EInsert false [g]] in
+  let s := run 127 init [EAlter 127; EInsert MPlain [g 1]; EDelEq 127; EInsert MPlain [g 2]] in
   gens s = [127; 127] /\ ctr s = 127.
+Proof. split; vm_compute; reflexivity. Qed.
+
+(* REPLACE generates 2 but LAST_INSERT_ID() and OkResult.InsertID stay at the value of the statement before *)
+Lemma replace_keeps_lid :
+  let s := run big init [EInsert MPlain [g 1]] in
+  let r := step big s (EInsert MReplace [g 2]) in
+  snd r = (true, 1) /\ gens (fst r) = [1; 2] /\ lid (fst r) = 1.
+Proof. repeat split; vm_compute; reflexivity. Qed.
+
+(* ODKU: the row before the first generated one takes the UPDATE path and does not count down *)
+Lemma odku_lid_shift :
+  let s := run big init [EInsert MPlain [g 1]] in
+  let r := step big s (EInsert (MOdku OSetV) [x 1 2; g 3; x 20 4]) in
+  snd r = (true, 20) /\ gens (fst r) = [1; 2] /\ lid (fst r) = 20.
+Proof. repeat split; vm_compute; reflexivity. Qed.
+
+(* UPDATE does not move the counter: id 1 becomes 2 = the counter; the guard is violated and every later generated insert fails *)
+Lemma update_to_counter_stuck :
+  let h := [EInsert MPlain [g 1]; EUpdId 1 2] in
+  guarded big init h = false /\ ctr (run big init h) = 2 /\ ids (run big init h) = [2] /\
+  snd (step big (run big init h) (EInsert MPlain [g 2])) = (false, 0) /\
+  run big (run big init h) [EInsert MPlain [g 2]; EInsert MPlain [g 3]] = run big init h.
+Proof. repeat split; vm_compute; auto. Qed.
+
+(* the same through ON DUPLICATE KEY UPDATE id = id + 5 *)
+Lemma odku_add_above_counter :
+  let h := [EInsert MPlain [g 1]; EInsert (MOdku (OAdd 5)) [g 1]] in
+  guarded big init h = false /\ ctr (run big init h) = 2 /\ ids (run big init h) = [6].
+Proof. repeat split; vm_compute; auto. Qed.
+
+(* INSERT IGNORE, two copies of the table data: (NULL -> 1), (100 skipped: u duplicate; only the session copy is raised),
+   then (NULL -> 100); but when the skipped row is the last one the raise is lost *)
+Lemma ignore_two_copies :
+  let s := run big init [EInsert MPlain [g 1]] in
+  ids (fst (step big s (EInsert MIgnore [g 2; x 100 1; g 3]))) = [1; 2; 100] /\
+  ctr (fst (step big s (EInsert MIgnore [g 2; x 100 1; g 3]))) = 101 /\
+  ctr (fst (step big s (EInsert MIgnore [g 2; x 100 1]))) = 3 /\
+  ctr (fst (step big s (EInsert MIgnore [x 100 1]))) = 100.
+Proof. repeat split; vm_compute; reflexivity. Qed.
+
+(* sessions 0 and 1: 0 opens a transaction and generates 2 in its private copy, 1 generates 2 in the stored table, 0
+   commits: both statements succeeded and reported 2; the stored table is 0's copy *)
+Definition interleaved : list wevent :=
+  [WStmt 0 (EInsert MPlain [g 1]); WBegin 0; WStmt 0 (EInsert MPlain [g 2]); WStmt 1 (EInsert MPlain [g 3]); WCommit 0].
+
+Lemma interleaved_same_id :
+  let w := wrun big winit interleaved in
+  nth 0 (wlid w) 0 = 2 /\ nth 1 (wlid w) 0 = 2 /\ t_rows (wdb w) = [(1, 1); (2, 2)] /\
+  snd (wstep big (wrun big winit (firstn 2 interleaved)) (WStmt 0 (EInsert MPlain [g 2]))) = (true, 2) /\
+  snd (wstep big (wrun big winit (firstn 3 interleaved)) (WStmt 1 (EInsert MPlain [g 3]))) = (true, 2).
+Proof. repeat split; vm_compute; reflexivity. Qed.
+
+(* ids generated inside a rolled-back transaction are generated again (the decision: uniqueness is over committed statements) *)
+Lemma rollback_reuses :
+  let w := wrun big winit [WStmt 0 (EInsert MPlain [g 1]); WBegin 0; WStmt 0 (EInsert MPlain [g 2]); WRollback 0; WStmt 0 (EInsert MPlain [g 2])] in
+  t_gens (wdb w) = [1; 2] /\ t_ctr (wdb w) = 3.
 Proof. split; vm_compute; reflexivity. Qed.
